@@ -56,7 +56,7 @@ const defectEvery = 80
 const valuesPerCase = 3
 
 func (check) Rule() string {
-	return "per case one struct type and 3 values of it (thorough: 4 consecutive cases share the type, so the runtime's permanent reflect.StructOf cache stays small): a reflect.StructOf struct of 1-6 fields, depth <= 3, over bool, all int/uint/float kinds, string, time.Duration, *regexp.Regexp, pointers (also to pointers), slices, arrays [1..3]T, map[string]T, interface{}, nested structs by value/pointer/in collections, hand-written named types (Level string, Count int32, Ratio float64, Flag bool, Octets []uint8, Labels map[string]string, structs Endpoint/Hidden/Mixed/Opaque/Wrapped with tags, embedded and unexported fields); tags: none, rename, dotted (shared parents, prefix-free), ignore (also on chan/func/map[int]/complex fields), inline/squash on struct fields (own names disjoint from the siblings'), inline map as the only transported field, merge-option tags, foreign tag keys; values: zero, extreme and random numbers, NaN/Inf/-0, durations incl. Min/MaxInt64, regexps, strings with $ . , braces, nil/empty/filled collections, nil pointers and chains ending in nil outside collections. Each value enters as NewFrom(v), NewFrom(&v) or New().Merge(v) and is round-tripped with PathSep(\".\") and, if the type has no dotted tag name, without it; the zero value of every type is round-tripped too. Every 80th type deliberately contains one legal shape with a known defect (in turn: inline map next to named fields; non-nil *[N]T; *map as list/map element; map keyed by a named string type). Non-trivial = the type transports >= 3 fields (nested ones counted) or >= 1 container; distinct = distinct (type, value) text."
+	return "per case one struct type and 3 values of it (thorough: 4 consecutive cases share the type, so the runtime's permanent reflect.StructOf cache stays small): a reflect.StructOf struct of 1-6 fields, depth <= 3, over bool, all int/uint/float kinds, string, time.Duration, *regexp.Regexp, pointers (also to pointers), slices, arrays [1..3]T, map[string]T, interface{}, nested structs by value/pointer/in collections, hand-written named types (Level string, Count int32, Ratio float64, Flag bool, Octets []uint8, Labels map[string]string, structs Endpoint/Hidden/Mixed/Opaque/Wrapped with tags, embedded and unexported fields); tags: none, rename, dotted (shared parents, prefix-free), ignore (also on chan/func/map[int]/complex fields), inline/squash on struct fields (own names disjoint from the siblings'), inline map as the only transported field, merge-option tags, foreign tag keys; one namespace spelled by 2-3 fields of one struct at any nesting level (about every 11th field starts such a group: struct fields by value or pointer with the same renamed or lower-cased name, the same wrapped in an inline struct, dotted names leading into the namespace - also one that is itself a struct -, [L]struct fields of one length plus dotted names through an index; the spellings come in random order, define disjoint settings and share 0-2 sub-namespaces that are spelled the same way again, up to 3 levels); values: zero, extreme and random numbers, NaN/Inf/-0, durations incl. Min/MaxInt64, regexps, strings with $ . , braces, nil/empty/filled collections, nil pointers and chains ending in nil outside collections. Each value enters as NewFrom(v), NewFrom(&v) or New().Merge(v) and is round-tripped with PathSep(\".\") and, if the type has no dotted tag name, without it; the zero value of every type is round-tripped too. Every 80th type deliberately contains one legal shape with a known defect (in turn: inline map next to named fields; non-nil *[N]T; *map as list/map element; map keyed by a named string type). Non-trivial = the type transports >= 3 fields (nested ones counted) or >= 1 container; distinct = distinct (type, value) text."
 }
 
 func (check) Assumptions() []string {
@@ -64,7 +64,8 @@ func (check) Assumptions() []string {
 		"equality is the property's: nil == empty for slices and maps, NaN == NaN (other floats bit-exact), *regexp.Regexp by source text, pointers by pointee with a chain ending in nil equal to nil, interface{} fields by model.CanonIfc (numbers by value, nil == {} == [])",
 		"fields tagged ignore and unexported fields are not transported: they are not compared with the source but must be zero in the result",
 		"not generated (outside the quantifier): nil pointers / nil interfaces as list or map elements, arrays directly as map values, pointers to interface{}, inline on pointer-to-struct fields, regexp.Regexp by value; map keys never contain the separator and never parse as integers (C05/C20)",
-		"the untagged field name is the lower-cased Go field name; the top-level names of the intermediate Config are checked against the names derived from the type (this is what makes a merge-side-only and an unpack-side-only naming rule distinguishable)",
+		"the untagged field name is the lower-cased Go field name; the names of the intermediate Config are checked against the names derived from type and value, level by level through structs and lists of structs, not below maps and interfaces (this is what makes a merge-side-only and an unpack-side-only naming rule distinguishable); a name whose only definition is a nil pointer or nil interface may be present or absent",
+		"several fields spelling one namespace: only with disjoint settings (a setting defined twice is a duplicate key, C09), never as a nil pointer (Unpack allocates the pointer for the other spellings' settings), never as a map or an inline map (it would receive the other spellings' settings: the open inline-map question), lists only as arrays of one length (a slice would come back with the longest length); signatures of deviations below such a namespace carry shared-ns / shared-namespace",
 		"VarExp off: '$' in strings is data",
 		"an empty map or list held by an interface{} map entry comes back as an absent entry: equal, by nil == empty and CanonIfc's absent == nil",
 		"a failure is attributed to a known shape only by a differential re-run: the same Config unpacks into the type with *[N]T replaced by *[]T (resp. element *map by map, map[Level]T by map[string]T)",
@@ -303,13 +304,26 @@ var dottedParents = []string{"sec", "sec.q", "opt", "opt.q.r", "sec.r"}
 func (g *tgen) genFields(depth int, ns *namespace, n int) []reflect.StructField {
 	r := g.r
 	var fs []reflect.StructField
+	var later [][]reflect.StructField
 	for i := 0; i < n && len(ns.pool) > 0; i++ {
 		name := ns.pool[0]
 		ns.pool = ns.pool[1:]
 		f := reflect.StructField{Name: name}
-		c := r.Intn(21)
-		if (c == 15 || c == 16 || c == 19) && depth <= 0 {
+		c := r.Intn(23)
+		if (c == 15 || c == 16 || c == 19 || c >= 21) && depth <= 0 {
 			c = 0
+		}
+		if c >= 21 && g.defect != defNone {
+			c = 1 // the types carrying a known-defect shape stay as they were
+		}
+		if c >= 21 {
+			// 2-3 fields of this struct spell one and the same namespace; they are
+			// neither adjacent nor in a fixed order
+			parts := g.shared(depth, name, 2+r.Intn(2))
+			r.Shuffle(len(parts), func(i, j int) { parts[i], parts[j] = parts[j], parts[i] })
+			fs = append(fs, parts[0]...)
+			later = append(later, parts[1:]...)
+			continue
 		}
 		switch {
 		case c <= 6:
@@ -375,7 +389,185 @@ func (g *tgen) genFields(depth int, ns *namespace, n int) []reflect.StructField 
 		}
 		fs = append(fs, f)
 	}
+	for _, p := range later {
+		at := r.Intn(len(fs) + 1)
+		fs = append(fs[:at:at], append(append([]reflect.StructField{}, p...), fs[at:]...)...)
+	}
 	return fs
+}
+
+// ---------------------------------------------------------------------------
+// one namespace spelled by several fields
+
+// spellMark tags a field that spells a namespace other fields spell as well.
+// The library does not look at the key; the value generator does (a nil
+// pointer there would hand the whole namespace to the other spellings, and
+// Unpack would have to allocate it: not a round trip by construction).
+const spellKey, spellVal = "verif", "spelling"
+
+func isSpelling(f reflect.StructField) bool { return f.Tag.Get(spellKey) == spellVal }
+
+// shared builds k spellings of one namespace named after base. Spelling i is
+// the list of fields result[i], to be placed into holder struct i: for a group
+// started by genFields all holders are the same struct, for a sub-namespace
+// the holders are (some of) the spellings of the enclosing shared namespace.
+// What the spellings define below the namespace is disjoint by name (one name
+// pool for all of them), except for the sub-namespaces they share on purpose.
+// A spelling is a struct field (renamed, or untagged with a Go name whose
+// lower-cased form is the namespace name; by value or by pointer), the same
+// wrapped into an inline struct, or - dotted - its content hoisted into the
+// holder under names prefixed with the namespace. A list namespace is spelled
+// by [L]struct fields of one length and by dotted names through one index.
+func (g *tgen) shared(depth int, base string, k int) [][]reflect.StructField {
+	r := g.r
+	cname := "w" + strings.ToLower(base)
+	inner := g.newNS()
+	list := 0
+	if r.Intn(4) == 0 {
+		list = 1 + r.Intn(3)
+	}
+	content := make([][]reflect.StructField, k)
+	for i := range content {
+		content[i] = g.genFields(depth-1, inner, r.Intn(3))
+	}
+	if depth >= 2 {
+		for n := r.Intn(3); n > 0 && len(inner.pool) > 0; n-- {
+			m := 2
+			if k > 2 && r.Intn(2) == 0 {
+				m = k
+			}
+			who := r.Perm(k)[:m]
+			sub := inner.pool[0]
+			inner.pool = inner.pool[1:]
+			for j, part := range g.shared(depth-1, sub, m) {
+				content[who[j]] = append(content[who[j]], part...)
+			}
+		}
+	}
+	for _, c := range content {
+		r.Shuffle(len(c), func(i, j int) { c[i], c[j] = c[j], c[i] })
+	}
+
+	// Go names whose lower-cased form is the namespace name
+	var variants []string
+	for _, v := range []string{base, strings.ToUpper(base), strings.ToLower(base)} {
+		if strings.ToLower("W"+v) != cname {
+			continue
+		}
+		dup := false
+		for _, o := range variants {
+			dup = dup || o == v
+		}
+		if !dup {
+			variants = append(variants, v)
+		}
+	}
+	r.Shuffle(len(variants), func(i, j int) { variants[i], variants[j] = variants[j], variants[i] })
+
+	forms := make([]int, k)
+	structs := 0
+	for i := range forms {
+		forms[i] = r.Intn(9)
+		if forms[i] < 6 {
+			structs++
+		}
+	}
+	if list > 0 && structs == 0 {
+		forms[r.Intn(k)] = r.Intn(6) // somebody has to define the list as a whole
+	}
+	out := make([][]reflect.StructField, k)
+	for i := range out {
+		goName := fmt.Sprintf("W%s%d", base, i)
+		if forms[i] >= 6 {
+			idx := ""
+			if list > 0 {
+				idx = fmt.Sprintf("%d.", r.Intn(list))
+			}
+			if fs, ok := prefixFields(content[i], cname+"."+idx, fmt.Sprintf("V%s%d", base, i)); ok {
+				g.dotted = true
+				g.form("shared:dotted")
+				if list > 0 {
+					g.form("shared:dotted-through-index")
+				}
+				out[i] = fs
+				continue
+			}
+			forms[i] = 0
+		}
+		t := reflect.StructOf(content[i])
+		f := reflect.StructField{Name: goName, Tag: reflect.StructTag(fmt.Sprintf(`config:"%s" %s:"%s"`, cname, spellKey, spellVal))}
+		form := "struct"
+		switch {
+		case list > 0:
+			form = "array-of-struct"
+			if forms[i] == 3 {
+				form = "array-of-ptr-to-struct"
+				t = reflect.PtrTo(t)
+			}
+			t = reflect.ArrayOf(list, t)
+		case forms[i] == 3:
+			form = "ptr-to-struct"
+			t = reflect.PtrTo(t)
+		}
+		f.Type = t
+		if forms[i] == 2 && len(variants) > 0 {
+			form += "/untagged"
+			f.Name = "W" + variants[0]
+			variants = variants[1:]
+			f.Tag = reflect.StructTag(fmt.Sprintf(`%s:"%s"`, spellKey, spellVal))
+		}
+		if forms[i] >= 4 {
+			form += "/in-inline-struct"
+			word := []string{"inline", "squash"}[r.Intn(2)]
+			f = reflect.StructField{Name: goName + "i", Type: reflect.StructOf([]reflect.StructField{f}), Tag: reflect.StructTag(fmt.Sprintf(`config:",%s"`, word))}
+		}
+		g.form("shared:" + form)
+		out[i] = []reflect.StructField{f}
+	}
+	return out
+}
+
+// prefixFields hoists the fields of a spelling into its holder: every config
+// name gets the prefix, every Go name goPrefix. It fails for content whose
+// names can not be rewritten (an inlined hand-written struct).
+func prefixFields(fs []reflect.StructField, prefix, goPrefix string) ([]reflect.StructField, bool) {
+	var out []reflect.StructField
+	for _, f := range fs {
+		ti := parseTag(f.Tag)
+		name := cfgName(f, ti)
+		f.Name = goPrefix + f.Name
+		switch {
+		case ti.ignore:
+		case ti.inline:
+			if f.Type.Kind() != reflect.Struct || f.Type.PkgPath() != "" {
+				return nil, false
+			}
+			var in []reflect.StructField
+			for i := 0; i < f.Type.NumField(); i++ {
+				in = append(in, f.Type.Field(i))
+			}
+			in, ok := prefixFields(in, prefix, "")
+			if !ok {
+				return nil, false
+			}
+			for i := range in {
+				in[i].Offset, in[i].Index = 0, nil
+			}
+			f.Type = reflect.StructOf(in)
+		default:
+			cfg, has := f.Tag.Lookup("config")
+			parts := strings.Split(cfg, ",")
+			parts[0] = prefix + name
+			now := `config:"` + strings.Join(parts, ",") + `"`
+			if has {
+				f.Tag = reflect.StructTag(strings.Replace(string(f.Tag), `config:"`+cfg+`"`, now, 1))
+			} else {
+				f.Tag = reflect.StructTag(strings.TrimSpace(now + " " + string(f.Tag)))
+			}
+		}
+		out = append(out, f)
+	}
+	return out, true
 }
 
 // simple value types an inline map and all of its siblings can share
@@ -639,8 +831,9 @@ func (g *vgen) zeroVal(t reflect.Type, inColl bool) reflect.Value {
 		}
 	case t.Kind() == reflect.Struct:
 		for i := 0; i < t.NumField(); i++ {
-			if t.Field(i).PkgPath == "" {
-				v.Field(i).Set(g.zeroVal(t.Field(i).Type, false))
+			if f := t.Field(i); f.PkgPath == "" {
+				// (a pointer spelling a namespace other fields spell too is not nil)
+				v.Field(i).Set(g.zeroVal(f.Type, isSpelling(f) && f.Type.Kind() == reflect.Ptr))
 			}
 		}
 	}
@@ -839,7 +1032,15 @@ func (g *vgen) val(t reflect.Type, inColl bool) reflect.Value {
 			if f.Name == "Dx" && g.defect != defNone {
 				g.force = true
 			}
-			v.Field(i).Set(g.val(f.Type, false))
+			if isSpelling(f) && f.Type.Kind() == reflect.Ptr {
+				// one of several spellings of a namespace: never a nil pointer
+				p := reflect.New(f.Type.Elem())
+				p.Elem().Set(g.val(f.Type.Elem(), false))
+				v.Field(i).Set(p)
+				g.class("ptr:spelling-of-shared-namespace")
+			} else {
+				v.Field(i).Set(g.val(f.Type, false))
+			}
 			g.force = saved
 		}
 		g.private(v)
@@ -1031,8 +1232,19 @@ func clip(s string, n int) string {
 type deviation struct{ sig, detail string }
 
 type comparer struct {
-	sep  bool
-	devs []deviation
+	sep      bool
+	devs     []deviation
+	inShared int // > 0 while comparing below a namespace spelled by several fields
+	holders  int
+	settings int // leaf comparisons below such a namespace
+}
+
+// at names the place of a value for the signature.
+func (c *comparer) at(t reflect.Type, parent string) string {
+	if c.inShared > 0 {
+		return kindName(t) + "@shared-ns/" + parent
+	}
+	return kindName(t) + "@" + parent
 }
 
 func (c *comparer) add(sig, format string, a ...interface{}) {
@@ -1067,9 +1279,16 @@ func ifcOf(v reflect.Value) interface{} {
 
 // eq compares the source a with the result b. parent names the container the
 // value sits in (for the signature).
-func (c *comparer) eq(a, b reflect.Value, path, parent string) {
+func (c *comparer) eq(a, b reflect.Value, path, parent string, node *nameNode) {
 	t := a.Type()
-	where := kindName(t) + "@" + parent
+	where := c.at(t, parent)
+	if c.inShared > 0 {
+		switch t.Kind() {
+		case reflect.Ptr, reflect.Struct, reflect.Slice, reflect.Array, reflect.Map:
+		default:
+			c.settings++
+		}
+	}
 	if t == tRegexpP {
 		switch {
 		case a.IsNil() && b.IsNil():
@@ -1109,7 +1328,7 @@ func (c *comparer) eq(a, b reflect.Value, path, parent string) {
 			}
 			return
 		}
-		c.eq(a.Elem(), b.Elem(), path+"*", "ptr")
+		c.eq(a.Elem(), b.Elem(), path+"*", "ptr", node)
 	case reflect.Interface:
 		ca, cb := model.CanonIfc(ifcOf(a)), model.CanonIfc(ifcOf(b))
 		if ca != cb {
@@ -1121,12 +1340,16 @@ func (c *comparer) eq(a, b reflect.Value, path, parent string) {
 			return
 		}
 		for i := 0; i < a.Len(); i++ {
-			c.eq(a.Index(i), b.Index(i), fmt.Sprintf("%s[%d]", path, i), t.Kind().String())
+			var el *nameNode
+			if node != nil && i < len(node.elems) {
+				el = node.elems[i]
+			}
+			c.eq(a.Index(i), b.Index(i), fmt.Sprintf("%s[%d]", path, i), t.Kind().String(), el)
 		}
 	case reflect.Map:
 		c.mapEq(a, b, path, parent, nil)
 	case reflect.Struct:
-		c.structEq(a, b, path, nil)
+		c.structEq(a, b, path, nil, node)
 	default:
 		c.add("uncomparable-kind", "%s: kind %v", path, t.Kind())
 	}
@@ -1135,7 +1358,7 @@ func (c *comparer) eq(a, b reflect.Value, path, parent string) {
 // mapEq compares two string-keyed maps. siblings != nil marks an inline map:
 // the names its neighbours contribute to the same namespace.
 func (c *comparer) mapEq(a, b reflect.Value, path, parent string, siblings map[string]bool) {
-	where := kindName(a.Type()) + "@" + parent
+	where := c.at(a.Type(), parent)
 	var surplus, missing []string
 	// an interface{} entry holding nil or an empty collection is canonically
 	// the same as no entry (model.CanonIfc): nil == {} == [] == absent key
@@ -1157,7 +1380,7 @@ func (c *comparer) mapEq(a, b reflect.Value, path, parent string, siblings map[s
 			missing = append(missing, k.String())
 			continue
 		}
-		c.eq(a.MapIndex(k), bv, fmt.Sprintf("%s[%q]", path, k.String()), "map")
+		c.eq(a.MapIndex(k), bv, fmt.Sprintf("%s[%q]", path, k.String()), "map", nil)
 	}
 	sort.Strings(surplus)
 	sort.Strings(missing)
@@ -1210,8 +1433,15 @@ func (c *comparer) names(v reflect.Value, skip int, may, must map[string]bool) {
 	}
 }
 
-func (c *comparer) structEq(a, b reflect.Value, path string, outer map[string]bool) {
+// node is the namespace the fields of a are settings of (nil: not tracked).
+func (c *comparer) structEq(a, b reflect.Value, path string, outer map[string]bool, node *nameNode) {
 	t := a.Type()
+	if node == nil {
+		// below a map or a list of lists: a name tree of its own
+		c.holders++
+		node = &nameNode{ns: true}
+		c.tree(a, node, c.holders)
+	}
 	for i := 0; i < t.NumField(); i++ {
 		f := t.Field(i)
 		fp := path + "." + f.Name
@@ -1236,12 +1466,300 @@ func (c *comparer) structEq(a, b reflect.Value, path string, outer map[string]bo
 				c.add("ignored-field-written", "%s: field tagged ignore is %s in the result (source %s)", fp, clip(show(b.Field(i)), 200), clip(show(a.Field(i)), 200))
 			}
 		case ti.inline && f.Type.Kind() == reflect.Struct:
-			c.structEq(a.Field(i), b.Field(i), fp, sib())
+			c.structEq(a.Field(i), b.Field(i), fp, sib(), node)
 		case ti.inline && f.Type.Kind() == reflect.Map:
 			c.mapEq(a.Field(i), b.Field(i), fp, "inline", sib())
 		default:
-			c.eq(a.Field(i), b.Field(i), fp, "field")
+			// the namespaces the name of the field leads through, and the one it names
+			n, sh := node, false
+			for _, seg := range segments(cfgName(f, ti), c.sep) {
+				if n = n.step(seg); n == nil {
+					break
+				}
+				sh = sh || n.shared()
+			}
+			if sh {
+				c.inShared++
+			}
+			c.eq(a.Field(i), b.Field(i), fp, "field", n)
+			if sh {
+				c.inShared--
+			}
 		}
+	}
+}
+
+// ---------------------------------------------------------------------------
+// the names a value contributes to the Config, derived from type and value
+// alone: which namespaces exist, which settings they hold, and which of them
+// are spelled by more than one field
+
+type definer struct {
+	form   string // struct, ptr-to-struct, array, slice, dotted
+	holder int    // the struct value the field belongs to (inline structs: their holder)
+}
+
+type nameNode struct {
+	kids     map[string]*nameNode
+	elems    []*nameNode // a list namespace: its elements
+	must     bool        // some field puts a value there (otherwise the name may exist)
+	ns       bool        // a namespace whose names are all known
+	definers []definer   // the fields spelling this namespace, in declaration order
+	subDefs  int         // how many of them hold a whole sub-namespace (struct or list of structs)
+}
+
+func (n *nameNode) kid(name string) *nameNode {
+	if n.kids == nil {
+		n.kids = map[string]*nameNode{}
+	}
+	k := n.kids[name]
+	if k == nil {
+		k = &nameNode{}
+		n.kids[name] = k
+	}
+	return k
+}
+
+func (n *nameNode) elem(i int) *nameNode {
+	for len(n.elems) <= i {
+		n.elems = append(n.elems, nil)
+	}
+	if n.elems[i] == nil {
+		n.elems[i] = &nameNode{}
+	}
+	return n.elems[i]
+}
+
+func segIndex(seg string) (int, bool) {
+	if seg == "" || len(seg) > 3 {
+		return 0, false
+	}
+	x := 0
+	for _, ch := range seg {
+		if ch < '0' || ch > '9' {
+			return 0, false
+		}
+		x = x*10 + int(ch-'0')
+	}
+	return x, true
+}
+
+func segments(name string, sep bool) []string {
+	if sep {
+		return strings.Split(name, ".")
+	}
+	return []string{name}
+}
+
+// step follows one path segment without creating anything.
+func (n *nameNode) step(seg string) *nameNode {
+	if n == nil {
+		return nil
+	}
+	if i, ok := segIndex(seg); ok && len(n.elems) > 0 {
+		if i < len(n.elems) {
+			return n.elems[i]
+		}
+		return nil
+	}
+	return n.kids[seg]
+}
+
+// shared: the namespace is put together from several fields and at least one
+// of them brings a sub-namespace of its own, or they sit in different structs
+// (so that whole sub-namespaces have to be united, not single settings added).
+func (n *nameNode) shared() bool {
+	if n == nil || len(n.definers) < 2 {
+		return false
+	}
+	if n.subDefs > 0 {
+		return true
+	}
+	for _, d := range n.definers[1:] {
+		if d.holder != n.definers[0].holder {
+			return true
+		}
+	}
+	return false
+}
+
+func chaseV(v reflect.Value) reflect.Value {
+	for v.Kind() == reflect.Ptr && v.Type() != tRegexpP && !v.IsNil() {
+		v = v.Elem()
+	}
+	return v
+}
+
+// tree adds the names struct value v contributes to namespace node.
+func (c *comparer) tree(v reflect.Value, node *nameNode, holder int) {
+	t := v.Type()
+	for i := 0; i < t.NumField(); i++ {
+		f := t.Field(i)
+		if f.PkgPath != "" {
+			continue
+		}
+		ti := parseTag(f.Tag)
+		fv := v.Field(i)
+		switch {
+		case ti.ignore:
+			continue
+		case ti.inline && f.Type.Kind() == reflect.Struct:
+			c.tree(fv, node, holder)
+			continue
+		case ti.inline && f.Type.Kind() == reflect.Map:
+			for _, k := range fv.MapKeys() {
+				node.kid(k.String()).must = true
+			}
+			continue
+		}
+		isNil := (fv.Kind() == reflect.Ptr && nilChain(fv)) || (fv.Kind() == reflect.Interface && fv.IsNil())
+		segs := segments(cfgName(f, ti), c.sep)
+		n := node
+		for j, seg := range segs {
+			if x, ok := segIndex(seg); ok && j > 0 {
+				n = n.elem(x)
+			} else {
+				n = n.kid(seg)
+			}
+			if !isNil {
+				n.must = true
+			}
+			if j < len(segs)-1 {
+				n.ns = true
+				n.definers = append(n.definers, definer{"dotted", holder})
+			}
+		}
+		if isNil {
+			continue
+		}
+		cv := chaseV(fv)
+		form := ""
+		if fv.Kind() == reflect.Ptr {
+			form = "ptr-to-"
+		}
+		switch {
+		case cv.Kind() == reflect.Struct:
+			c.holders++
+			n.ns = true
+			n.definers = append(n.definers, definer{form + "struct", holder})
+			n.subDefs++
+			c.tree(cv, n, c.holders)
+		case (cv.Kind() == reflect.Array || cv.Kind() == reflect.Slice) && chaseT(cv.Type().Elem()).Kind() == reflect.Struct && cv.Type().Elem() != tRegexpP:
+			d := definer{form + cv.Kind().String(), holder}
+			n.definers = append(n.definers, d)
+			n.subDefs++
+			for j := 0; j < cv.Len(); j++ {
+				e := chaseV(cv.Index(j))
+				if e.Kind() != reflect.Struct {
+					continue // a nil element: outside the quantifier, not generated
+				}
+				c.holders++
+				el := n.elem(j)
+				el.must, el.ns = true, true
+				el.definers = append(el.definers, d)
+				el.subDefs++
+				c.tree(e, el, c.holders)
+			}
+		}
+	}
+}
+
+type nameDiff struct {
+	path               string
+	depth              int
+	shared             bool
+	unexpected, absent []string
+	unreadable         string
+}
+
+// checkNames compares the names found in cfg with the namespace node, level
+// by level, as far as the names are known (structs and lists of structs).
+func checkNames(cfg *ucfg.Config, node *nameNode, path string, depth int, shared bool, out *[]nameDiff) {
+	if depth > 24 {
+		return
+	}
+	shared = shared || node.shared()
+	d := nameDiff{path: path, depth: depth, shared: shared}
+	got := map[string]bool{}
+	for _, n := range cfg.GetFields() {
+		got[n] = true
+		if node.kids[n] == nil {
+			d.unexpected = append(d.unexpected, n)
+		}
+	}
+	var names []string
+	for n, k := range node.kids {
+		names = append(names, n)
+		if k.must && !got[n] {
+			d.absent = append(d.absent, n)
+		}
+	}
+	if len(d.unexpected)+len(d.absent) > 0 {
+		sort.Strings(d.unexpected)
+		sort.Strings(d.absent)
+		*out = append(*out, d)
+	}
+	sort.Strings(names)
+	sub := func(name string, idx int, k *nameNode, p string, shared bool) {
+		var s *ucfg.Config
+		var err error
+		if panicked, pv, _ := harness.Safe(func() { s, err = cfg.Child(name, idx) }); panicked {
+			err = fmt.Errorf("Child panicked: %v", pv)
+		}
+		if err != nil || s == nil {
+			if k.must {
+				*out = append(*out, nameDiff{path: p, depth: depth + 1, shared: shared || k.shared(), unreadable: fmt.Sprint(err)})
+			}
+			return
+		}
+		checkNames(s, k, p, depth+1, shared, out)
+	}
+	for _, n := range names {
+		k := node.kids[n]
+		if !got[n] {
+			continue
+		}
+		switch {
+		case len(k.elems) > 0:
+			for i, el := range k.elems {
+				if el != nil && el.ns {
+					sub(n, i, el, fmt.Sprintf("%s.%s.%d", path, n, i), shared || k.shared())
+				}
+			}
+		case k.ns:
+			sub(n, -1, k, path+"."+n, shared)
+		}
+	}
+}
+
+// sharedStats describes the namespaces of the tree that several fields spell:
+// how many there are, how deep they nest into each other, who spells them.
+func sharedStats(n *nameNode, nest int, isElem bool, count, maxNest *int, forms map[string]bool) {
+	if n == nil {
+		return
+	}
+	// (the elements of a shared list are not counted as one more level)
+	if n.shared() && !isElem {
+		nest++
+		*count++
+		if nest > *maxNest {
+			*maxNest = nest
+		}
+		var fs []string
+		for i, d := range n.definers {
+			if i == 4 {
+				fs = append(fs, "...")
+				break
+			}
+			fs = append(fs, d.form)
+		}
+		forms[strings.Join(fs, ",")] = true
+	}
+	for _, k := range n.kids {
+		sharedStats(k, nest, false, count, maxNest, forms)
+	}
+	for _, e := range n.elems {
+		sharedStats(e, nest, n.shared(), count, maxNest, forms)
 	}
 }
 
@@ -1463,26 +1981,47 @@ func roundTrip(res *harness.R, T reflect.Type, v reflect.Value, sep bool, entry 
 	}
 
 	// the names the struct contributes are the names found in the Config
+	// (Child and GetFields read the stored tree, nothing is evaluated)
 	cmp := &comparer{sep: sep}
-	may, must := map[string]bool{}, map[string]bool{}
-	cmp.names(v, -1, may, must)
-	var unexpected, absent []string
-	got := map[string]bool{}
-	for _, n := range c.GetFields() {
-		got[n] = true
-		if !may[n] {
-			unexpected = append(unexpected, n)
+	root := &nameNode{ns: true}
+	cmp.tree(v, root, 0)
+	var diffs []nameDiff
+	checkNames(c, root, "", 0, false, &diffs)
+	for i, d := range diffs {
+		if i >= 6 {
+			break
+		}
+		where := "nested-namespace"
+		if d.shared {
+			where = "shared-namespace"
+		}
+		switch {
+		case d.unreadable != "":
+			res.Violate("config-"+where+"-unreadable", "the Config built from the value has no readable namespace at %q, which the value defines: %s; %s", d.path, clip(d.unreadable, 200), witness())
+		case d.depth == 0:
+			res.Violate("config-top-level-names-differ", "the Config built from the value has unexpected top-level names %q and lacks %q; %s", d.unexpected, d.absent, witness())
+		default:
+			if len(d.absent) > 0 {
+				res.Violate("config-"+where+"-lacks-settings", "below %q the Config built from the value lacks the names %q (unexpected ones: %q); %s", d.path, d.absent, d.unexpected, witness())
+			}
+			if len(d.unexpected) > 0 {
+				res.Violate("config-"+where+"-has-surplus-settings", "below %q the Config built from the value has the unexpected names %q (lacking: %q); %s", d.path, d.unexpected, d.absent, witness())
+			}
 		}
 	}
-	for n := range must {
-		if !got[n] {
-			absent = append(absent, n)
+	var nShared, nest int
+	forms := map[string]bool{}
+	sharedStats(root, 0, false, &nShared, &nest, forms)
+	if nShared > 0 {
+		res.Ev("shared_namespaces", int64(nShared))
+		res.Ev("round_trips_with_shared_namespace", 1)
+		if nest >= 2 {
+			res.Ev("round_trips_with_shared_namespace_nested_in_another", 1)
 		}
-	}
-	if len(unexpected)+len(absent) > 0 {
-		sort.Strings(unexpected)
-		sort.Strings(absent)
-		res.Violate("config-top-level-names-differ", "the Config built from the value has unexpected top-level names %q and lacks %q; %s", unexpected, absent, witness())
+		res.SetAdd("shared_namespace_nesting", fmt.Sprint(nest))
+		for f := range forms {
+			res.SetAdd("shared_namespace_spellings", f)
+		}
 	}
 
 	out := reflect.New(T)
@@ -1502,6 +2041,9 @@ func roundTrip(res *harness.R, T reflect.Type, v reflect.Value, sep bool, entry 
 		sig := "unpack-error:" + reason(err)
 		if alt, ch := rewrite(T, defPtrArray, false); ch && unpacksInto(c, alt, opts) {
 			sig = "nil-pointer-to-array-rejected"
+		} else if len(diffs) > 0 {
+			// the Config did not hold what the value defines in the first place
+			sig += "/config-names-differed"
 		}
 		res.Violate(sig, "Unpack into a zero value of the same type failed (%s): %s; %s", reason(err), clip(message(err), 300), witness())
 		return false
@@ -1511,10 +2053,11 @@ func roundTrip(res *harness.R, T reflect.Type, v reflect.Value, sep bool, entry 
 		d, derr := obs.Dict(c, opts...)
 		fmt.Printf("%s %s: config %s (%v)\n", what, mode, d, derr)
 	}
-	cmp.structEq(v, out.Elem(), "", nil)
+	cmp.structEq(v, out.Elem(), "", nil, root)
 	for _, d := range cmp.devs {
 		res.Violate(d.sig, "%s; result %s; %s", d.detail, clip(show(out.Elem()), 2500), witness())
 	}
+	res.Ev("settings_compared_below_shared_namespaces", int64(cmp.settings))
 	res.Ev("round_trips", 1)
 	return true
 }
